@@ -12,6 +12,7 @@ UNITS = {
     'phon': 'PhoneticSuggestion::{add_suffix_to_suggestions, suggest_only_phonetic, suggestion_with_dict, suggest, get_prev_selection}',
     'pmeth': 'PhoneticMethod under an adversarial environment (new, key, backspace, commit, update_engine)',
     'data': 'Data::new: the bundled tables are a function of the data directory alone',
+    'split': 'SplittedString::split (the real three-way split: find + right-to-left char_indices scan + split_at) against split_spec',
     'layout_get': 'Layout::layout_get_value / layout_get_value_numpad: entry name, empty = none, key pad only with the option on',
 }
 
@@ -23,10 +24,10 @@ PLAN = {
     'C01': {
         'bounded': ['phonetic_api', 'fixed_api', 'fixed_rules', 'user_files', 'suffix_forms'], 'static': ['context_glue'], 'kani': ['k_keycode_to_char'],
         'level': 'proof', 'safety': True,
-        'units': ['fixed_pkv_common', 'fixed_reph', 'fixed_session', 'layout', 'layout_get', 'rank', 'util', 'phon', 'pmeth', 'data'],
+        'units': ['fixed_pkv_common', 'fixed_reph', 'fixed_session', 'layout', 'layout_get', 'rank', 'util', 'phon', 'pmeth', 'data', 'split'],
         'technique': 'Verus built-in safety obligations (unwrap/index/slice/overflow/termination) on extracted real functions under data-structure invariants',
         'claim': 'Every extracted riti function (both methods, Rank/Suggestion, layout, utility) is proved free of panics, failed unwraps, out-of-bounds or off-boundary slices, arithmetic overflow and non-termination for ALL inputs satisfying the stated invariants (ASCII buffer, memo transparency, in-range commit index), and every API operation is proved to re-establish those invariants; keys without a character are ignored; a memo entry is proved to hold the direct hits of its word only, so the suffix pass multiplies lists whose size does not depend on the history.',
-        'note': COMMON_TRUST + 'Not decided: panics inside okkhor/regex/poriborton/emojicon, sort panic-freedom for non-total comparators, RefCell double borrow, time complexity beyond termination; T2 functions (split, internal_backspace_step, search_dictionary, include_from_dictionary, layout_get_value) only have assumed contracts here.',
+        'note': COMMON_TRUST + 'Not decided: panics inside okkhor/regex/poriborton/emojicon, sort panic-freedom for non-total comparators, RefCell double borrow, time complexity beyond termination; T2 functions (internal_backspace_step, search_dictionary, include_from_dictionary) only have assumed contracts here; SplittedString::split is proved in unit split (std/UTF-8 facts about str::find with a closure, char_indices, split_at offsets are T3 axioms listed in the trusted base).',
     },
     'C02': {
         'bounded': ['phonetic_api', 'fixed_api'],
@@ -39,10 +40,10 @@ PLAN = {
     'C03': {
         'bounded': ['split', 'phonetic_api'], 'kani': ['k_keycode_to_char'],
         'level': 'proof',
-        'units': ['layout', 'util', 'phon', 'pmeth'],
+        'units': ['layout', 'util', 'phon', 'pmeth', 'split'],
         'technique': 'Verus: keycode_to_char == riti.h table; suggest_only_phonetic == avro(p)+avro(w)+avro(t) over split_spec; statement-level split lemmas',
         'claim': 'Proof that the key-to-character table equals the one derived from riti.h, that the buffer is exactly the typed characters, that with suggestions off the result is avro(leading)+avro(word)+avro(trailing) for the three-way split, with lemmas turning the split spec into the statement wording (word over letters/digits wrapped in punctuation), and that with suggestions on that transliteration (modulo curling) is pushed into the list.',
-        'note': COMMON_TRUST + 'okkhor (avro) is an uninterpreted function; SplittedString::split itself is T2: assumed contract == split_spec, bounded conformance check.',
+        'note': COMMON_TRUST + 'okkhor (avro) is an uninterpreted function; SplittedString::split is proved equal to split_spec in unit split (real body: closure find, right-to-left char_indices loop with escape/colon automaton, both split_at calls on proved char boundaries); what stays assumed there are std/UTF-8 facts (str::find with a closure returns the byte offset of the first accepted code point, char_indices yields (offset, code point), cutting bytes at a code-point offset cuts the code points there); the bounded check split stays as a cross-check of those axioms.',
     },
     'C04': {
         'bounded': ['layout_values', 'update_engine'], 'kani': ['k_modifiers_plane'],
@@ -55,10 +56,10 @@ PLAN = {
     'C05': {
         'bounded': ['history_independence'], 'static': ['no_shared_state'],
         'level': 'proof',
-        'units': ['phon', 'pmeth'],
+        'units': ['phon', 'pmeth', 'split'],
         'technique': 'Verus: memo invariants (transparent, keys split-stable, prefixes memoised) + spec-level lemma list == ph_list_text(text, ...) independent of the memo',
         'claim': 'Proof of history independence for the candidate texts and their order: (1) every memo entry is the direct-candidate list of its key, every key is a split-stable word part, the memo only grows by the word part of the current text and is cleared when the user list is reloaded; (2) PhoneticMethod keeps the invariant that the word part of every non-empty prefix of the composition is memoised (preserved by key, backspace; trivially true when idle); (3) spec-level lemma: under (1)+(2) a split point of the word is memoised iff its base is itself a split-stable word part -- a property of the text -- hence list == ph_list_text(text, config, data, user list), a function that does not mention the memo; get_suggestion and backspace_event are proved to return exactly that list, and the preselected index is proved to be rv_first_index of the learned-or-derived text in it (a function of text and learned selections).',
-        'note': COMMON_TRUST + 'include_from_dictionary, split, search_corrected are T2 (assumed contracts); sort assumed to be a function of the ranked values; "other contexts in the same process" rests on safe Rust aliasing + the scan for process-wide state.',
+        'note': COMMON_TRUST + 'include_from_dictionary is T2 (assumed contract); split and search_corrected are proved (units split, phon); sort assumed to be a function of the ranked values; "other contexts in the same process" rests on safe Rust aliasing + the scan for process-wide state.',
     },
     'C06': {
         'bounded': ['fixed_rules', 'fixed_api'], 'static': ['context_glue'],
@@ -87,7 +88,7 @@ PLAN = {
     'C09': {
         'bounded': ['learn_recall', 'update_engine'],
         'level': 'proof',
-        'units': ['pmeth', 'phon'],
+        'units': ['pmeth', 'phon', 'split'],
         'technique': 'Verus: functional postconditions of candidate_committed (store update + save attempt) and get_prev_selection (looked-up text, first index, derived entry) over String-keyed map views',
         'claim': 'Commit side: committing the preselected candidate (or with suggestions off) leaves the store unchanged; otherwise exactly one entry is written (word part of the typed text -> word part, colon mode, of the committed candidate), all other entries untouched, and a save of the WHOLE new store to the selection file is attempted (marker predicate), independent of the save result.  Look-up side: get_prev_selection is proved to return the index of the first candidate whose text is wrapping punctuation + learned text of the word part, or -- when the word has no entry of its own -- + the learned text of a base joined (same three rules as C08) with the first known suffix, shortest first; a derived text is stored for the word part itself without the punctuation, nothing else changes, and that write is idempotent for later look-ups (lemma).  The preselected index returned by key and backspace events is proved to be this function of (text, configuration, data, user list, learned selections).  Restart, read side: PhoneticMethod::new is proved to hold, under every option setting, exactly the store the selection file of the configuration denotes (load marker; missing or damaged file = empty store).',
         'note': COMMON_TRUST + 'Not proved: the round-trip lemma (the word part, colon mode, of a candidate p+core+t re-wrapped equals the candidate) and uniqueness-based conclusion "points at that same candidate" -- covered by the bounded check learn_recall (same context, restart, suffixed forms, punctuated first typing); serde round trip and disk atomicity are not decided.',
@@ -151,7 +152,7 @@ PLAN = {
     'C17': {
         'bounded': ['smart_quote', 'split'],
         'level': 'proof',
-        'units': ['util', 'fixed_session', 'phon'],
+        'units': ['util', 'fixed_session', 'phon', 'split'],
         'technique': 'Verus: smart_quoter == pointwise curl maps with loop invariants; placement clause (applied once, after splitting, only with the option on) in both list functions',
         'claim': 'Proof that smart_quoter maps straight quotes before a non-empty word to opening and after it to closing curved quotes and changes nothing else (nothing at all for punctuation-only text), and that both methods apply it exactly when the option is on, to the split parts that every non-raw candidate is wrapped in.  Relational clause at spec level over the proved list functions: lemma_c17_fixed (fixed method, every text) and lemma_c17_phonetic (phonetic method, every text whose raw form coincides with no other candidate -- the complement is the recorded known finding): the list with the option on and the list with it off have the same length and, position by position, the same rank and the same text once curly quotes are mapped back.',
         'note': COMMON_TRUST + 'The relational lemmas rest on one more axiom about std sorts: a comparison sort sees its elements only through the comparator (proved to be a function of the rank tags), so the arrangement it chooses is a function of the tag sequence.  Equality of the preselected index under the two settings is not a lemma (bounded check smart_quote).',
